@@ -255,14 +255,20 @@ func runC19(c *h.Ctx) {
 			if ni > 60 {
 				break
 			}
-			sub := b[n.Start:]
-			if cs.R.Chance(30) {
+			sub, start := b[n.Start:], 0
+			switch cs.R.Intn(10) {
+			case 0, 1, 2:
 				sub = b[n.Start:n.End]
+			case 3, 4, 5, 6:
+				sub, start = b, n.Start // in place: the cursor stands at the value inside the message
 			}
 			tr := h.TrapCopy(sub, true, true)
-			wantAdv := n.End - n.Start
+			wantAdv := start + n.End - n.Start
+			if start > 0 {
+				cs.Cover("skip_from_nonzero_cursor")
+			}
 			for mode := 0; mode < 4; mode++ {
-				p := &thrift.BinaryProtocol{Buf: tr.B}
+				p := &thrift.BinaryProtocol{Buf: tr.B, Read: start}
 				var err error
 				name := ""
 				switch mode {
